@@ -91,7 +91,7 @@ impl Out {
     /// result of one implementation-level oracle check
     pub fn oracle(&mut self, ok: bool, case: impl FnOnce() -> String, detail: impl FnOnce() -> String) {
         self.oracle_checks += 1;
-        if !ok && self.oracle_failures.len() < 200 {
+        if !ok && self.oracle_failures.len() < 400000 {
             self.oracle_failures.push((case(), detail()));
         }
     }
